@@ -86,6 +86,18 @@ size_t HashBBdh::getSize() {
   return mem;
 }
 
+void HashBBdh::save(std::ostream &fp) {
+  // load() turns the offsets into a bitmap: expand them to one per table cell
+  LogSequence full(numbits, tsize);
+  for (size_t i = 1; i <= n; i++)
+    full.setField(b_ht->select1(i), offsets->select1(i));
+
+  saveValue(fp, tsize);
+  saveValue(fp, n);
+  full.save(fp);
+  b_ht->save(fp);
+}
+
 HashBBdh *HashBBdh::load(std::istream &fp) {
   HashBBdh *h_new = new HashBBdh();
 
@@ -113,7 +125,9 @@ HashBBdh *HashBBdh::load(std::istream &fp) {
   h_new->offsets = new BitSequenceRRR(*offsets);
 
   delete offsets;
+  h_new->numbits = h_new->hash->getNumbits();
   delete h_new->hash;
+  h_new->hash = NULL;
 
   return h_new;
 }
